@@ -46,7 +46,7 @@ def handle (st : OSt) (line : String) : OSt × List String :=
       | _ => false
     let s := st.sys
     let (s', next', held') :=
-      if mode == "seq" || mode == "seqerr" || mode == "seqdyn" || mode == "seqdly" || mode == "fit" || mode == "fiterr" || mode == "spserr" || mode == "raw" then
+      if mode == "seq" || mode == "seqerr" || mode == "seqdyn" || mode == "seqdly" || mode == "heapdly" || mode == "heapseq" || mode == "fit" || mode == "fiterr" || mode == "spserr" || mode == "raw" then
         (seqBatch genCfg P ticks shut st.next n s, st.next + n, st.held)
       else if mode == "pool" then
         let w := nat! ((kv rest "pool").getD "1")
